@@ -36,7 +36,8 @@ _BUILD = {}
 
 def build_ext(name, boundscheck=False):
     """cythonize + compile /repo's <name>.pyx into a scratch directory and import it.  Nothing is
-    written to /repo or /verif; the directory is removed at exit.  boundscheck=True builds the SAME source with
+    written to /repo or /verif; the directory is removed as soon as the shared object is loaded (the mapping stays
+    valid after the unlink).  boundscheck=True builds the SAME source with
     Cython's buffer bounds checking switched on (the decorators are flipped in the scratch copy): an
     out-of-bounds access then raises IndexError deterministically -- the replay device for memory-safety
     counterexamples, in the role a sanitizer build plays for C."""
@@ -44,7 +45,13 @@ def build_ext(name, boundscheck=False):
     if key in _BUILD:
         return _BUILD[key]
     d = tempfile.mkdtemp(prefix='enspara_ext_', dir='/dev/shm' if os.path.isdir('/dev/shm') else None)
-    atexit.register(shutil.rmtree, d, True)
+    try:
+        return _build_in(d, name, boundscheck, key)
+    finally:
+        shutil.rmtree(d, True)
+
+
+def _build_in(d, name, boundscheck, key):
     src = os.path.join(REPO, PYX[name])
     pyx = os.path.join(d, name + '.pyx')
     shutil.copy(src, pyx)
